@@ -225,7 +225,7 @@ func runLP(t *simrt.Tape, rc *RunCtx) *Violation {
 	m := 1 + t.Choose(simrt.KWorkload, 4)
 	n := m + t.Choose(simrt.KWorkload, 8-m)
 	A := make([][]float64, m)
-	shape := t.Choose(simrt.KWorkload, 4)
+	shape := t.Choose(simrt.KWorkload, 5)
 	for i := range A {
 		A[i] = make([]float64, n)
 		for j := range A[i] {
@@ -239,6 +239,15 @@ func runLP(t *simrt.Tape, rc *RunCtx) *Violation {
 		// a dependent row: A is singular
 		for j := range A[m-1] {
 			A[m-1][j] = A[0][j] * 2
+		}
+	}
+	if shape == 4 && n >= 2 {
+		// the last column is a multiple of the one before it: an exactly
+		// dependent set at the end of the matrix, where the search for an
+		// initial basis starts
+		k := []float64{1, -1, 2, -2}[t.Choose(simrt.KValue, 4)]
+		for i := range A {
+			A[i][n-1] = k * A[i][n-2]
 		}
 	}
 	if shape == 3 {
